@@ -82,7 +82,7 @@ out.append("\nA fixed entry suppresses nothing: its witness is replayed by every
 out.append("### 5.2 Recorded findings (not repaired)\n")
 out.append("Not repaired because the repair is not small and safe in the sense of the brief: it would change a "
            "documented or relied-upon behaviour (D24, D21, D16, D17, D20, D13, D27), needs a design decision "
-           "upstream (D12-updatefiltered, D14, D15, D22), or reverses a deliberate performance choice / needs a redesign of "
+           "upstream (D12-updatefiltered, D15, D22), or reverses a deliberate performance choice / needs a redesign of "
            "the role manager's temporary roles (D19, D23); D10 and D11 need hostile bytes (NUL, comma) in names. "
            "Each prints `KNOWN-FINDING: property=<id> …` while its witness still fails and is excluded from the "
            "theorems by an explicit hypothesis named in section 4.\n")
